@@ -1,4 +1,5 @@
 import Afkak.Monitor.C05
+import Afkak.Wire.Xerial
 /-!
 # C05 — full-strength statements
 
@@ -76,5 +77,17 @@ def C05_assignment_roundtrip_stmt : Prop :=
 
 def C05_api_versions_roundtrip_stmt : Prop :=
   ∀ v e, expectedApiVersions v = some e → decodeApiVersionsResponse (Spec.apiVersionsResponse.enc v) = .ok e
+
+/-- PROVED (`C05_snappy_xerial_roundtrip`).  The model `Afkak/Wire/Xerial.lean` of
+    `afkak.codec.snappy_decode` / `snappy_encode` is compared with the real functions on every run through
+    a stub `snappy` module (python-snappy is not installed).  The xerial framing round-trips: for any
+    compressor / decompressor pair with `decompress (compress x) = x` and chunks whose compressed form
+    fits the int32 length prefix, `snappy_decode(snappy_encode(.., xerial_compatible=True))` returns the
+    concatenation of the chunks (with enough fuel for the `while` loop). -/
+def C05_snappy_xerial_roundtrip_stmt : Prop :=
+  ∀ (compress : Bytes → Bytes) (decompress : Bytes → R Bytes) (chunks : List Bytes),
+    (∀ x, decompress (compress x) = .ok x) →
+    (∀ c ∈ chunks, (compress c).length < 2 ^ 31) →
+    ∃ fuel, snappyDecode decompress fuel (xerialEncode compress chunks) = .ok chunks.flatten
 
 end Afkak.Props.C05
